@@ -369,7 +369,7 @@ func runC11(ctx *Ctx) error {
 	ctx.EvalMod = "Eval_C11"
 	ctx.CaseTy = "c11_case"
 	ctx.Shard = 12
-	ctx.Rule = "histories against the Job service of an in-process server (verif hook; jobs spooled under a real job directory, badger store): random graphs (0..5 vertices, self loops, parallel and dangling edges, nested data) x histories of 8..20 operations: submit of random traversals of all result types (vertices, edges, counts, selections, renders, paths; the direct Traversal of the same query is run alongside), view, resume with typed extensions (and some ill-typed), search with the same / a longer / a shorter / an unrelated query, list, delete, restart (a new server object over the same job directory and store); plus sized jobs around the 4-worker pool and 10/40-slot buffers; a two-step job on another graph is always present; plus the serializer pair of the spool on its own (jobstorage.MarshalStream |> UnmarshalStream) for 1..8 workers x 0..300 items, ids out against ids in, in order; observed: acceptance, state, count, rows of view/resume/direct, ids found; non-trivial = a history with a resume or a restart after a submit; distinct by input"
+	ctx.Rule = "histories against the Job service of an in-process server (verif hook; jobs spooled under a real job directory, badger store): random graphs (0..5 vertices, self loops, parallel and dangling edges, nested data) x histories of 8..20 operations: submit of random traversals of all result types (vertices, edges, counts, selections, renders, paths; the direct Traversal of the same query is run alongside), view, resume with typed extensions (and some ill-typed), search with the same / a longer / a shorter / an unrelated query (and with a step whose list argument is in another order), list, delete, restart (a new server object over the same job directory and store); plus sized jobs around the 4-worker pool and 10/40-slot buffers; a two-step job on another graph is always present; plus the serializer pair of the spool on its own (jobstorage.MarshalStream |> UnmarshalStream) for 1..8 workers x 0..300 items, ids out against ids in, in order; observed: acceptance, state, count, rows of view/resume/direct, ids found; non-trivial = a history with a resume or a restart after a submit; distinct by input"
 	var inputs []c11Input
 	if ctx.Replay != nil {
 		var in c11Input
@@ -381,6 +381,27 @@ func runC11(ctx *Ctx) error {
 		n := ctx.Pick(60, 600)
 		for i := 0; i < n; i++ {
 			inputs = append(inputs, c11Input{Graph: randGraph(ctx.Rng), Ops: c11History(ctx.Rng, 8+ctx.Rng.Intn(13))})
+		}
+		// stored jobs whose steps carry lists, searched with the same lists in another order (a step is what it says, in order:
+		// hasLabel(P,Q) / hasLabel(Q,P), render([name,w]) / render([w,name]), distinct, fields, select) and in the same order
+		{
+			fg := fixedGraph()
+			pairs := [][2]tStmt{
+				{{Op: "hasLabel", Strs: []string{"P", "Q"}}, {Op: "hasLabel", Strs: []string{"Q", "P"}}},
+				{{Op: "out", Strs: []string{"knows", "likes"}}, {Op: "out", Strs: []string{"likes", "knows"}}},
+				{{Op: "distinct", Strs: []string{"name", "w"}}, {Op: "distinct", Strs: []string{"w", "name"}}},
+				{{Op: "fields", Strs: []string{"name", "w"}}, {Op: "fields", Strs: []string{"w", "name"}}},
+				{{Op: "render", Tpl: []interface{}{"name", "w"}}, {Op: "render", Tpl: []interface{}{"w", "name"}}},
+				{{Op: "hasId", Strs: []string{"a", "b"}}, {Op: "hasId", Strs: []string{"b", "a"}}},
+			}
+			ops := []c11Op{}
+			for _, pr := range pairs {
+				ops = append(ops, c11Op{Op: "submit", Prog: []tStmt{{Op: "V"}, pr[0]}})
+			}
+			for _, pr := range pairs {
+				ops = append(ops, c11Op{Op: "search", Prog: []tStmt{{Op: "V"}, pr[1]}}, c11Op{Op: "search", Prog: []tStmt{{Op: "V"}, pr[0]}})
+			}
+			inputs = append(inputs, c11Input{Graph: fg, Ops: ops})
 		}
 		// sized: result counts around the worker pool (4) and channel sizes (10, 40)
 		for _, m := range []int{0, 1, 3, 4, 5, 9, 10, 11, 39, 40, 41, 45, 83, 200} {
